@@ -793,6 +793,8 @@ def write_ev(prop, tier, seed, results, samples, xcheck, build_s, wall, violatio
         assumptions = assumptions + ['engine M: the MIR rustc (nightly) emits from the current source for the interpreter functions named in coverage.mir (perform_super / perform_include / call_block, or eval_impl); panics/unwind edges are not followed; '
                                      'the effect table names the acquire/release functions of five resources (frame, block cursor, recursion depth, macro closure, output capture); '
                                      'an Output capture need not be returned on an error exit (the Output does not outlive the failing call)']
+    if 'Bx' in extra_ev:
+        cov['bytecode_expressions'] = extra_ev['Bx'].get('coverage', {})
     if 'Bs' in extra_ev:
         # C12: the VM use-site audit (bytecode/sites.py) rides along with the Kani kernels
         cov['vm_sites'] = extra_ev['Bs'].get('coverage', {})
